@@ -57,6 +57,30 @@ def run_case(case):
         st["n"] += 1
         return rng.choice([f"r{st['n']}", (f"r{st['n']}",), ("blk", st["n"]), (f"r{st['n']}", "lo")])
 
+    def partial_queries(mm_):
+        """Listings that are abandoned part-way, or two of them in flight at once: a listing is a fresh walk each time."""
+        try:
+            how = rng.choice(["next", "break", "zip", "nested"])
+            for q in (mm_.all_resources, mm_.resources, mm_.windows, mm_.window_patterns):
+                if how == "next":
+                    next(iter(q()), None)
+                elif how == "break":
+                    for _x in q():
+                        break
+                elif how == "zip":
+                    for _x, _y in zip(q(), q()):
+                        if rng.random() < 0.5:
+                            break
+                else:
+                    for _x in q():
+                        for _y in q():
+                            break
+                        if rng.random() < 0.5:
+                            break
+            mon.count("partially_consumed_listings")
+        except AssertionError:
+            pass
+
     def build(aw, dw, depth, leaf_only=False, min_align=0, lvl=1, ancestors=()):
         al = rng.choice([0, 0, 1, 2]) if aw > 3 else 0
         al = max(al, min_align)
@@ -68,6 +92,8 @@ def run_case(case):
         desc = {"aw": aw, "dw": dw, "al": al, "items": []}
         n_items = rng.randint(1, 5) if rng.random() < 0.9 else rng.randint(17, 40)
         for _ in range(n_items):
+            if rng.random() < 0.2:
+                partial_queries(rng.choice(all_maps))
             if rng.random() < 0.3:
                 list(m.all_resources()), list(m.window_patterns()), m.decode_address(rng.randrange(1 << aw))
                 try:
@@ -244,6 +270,9 @@ def run_case(case):
             second.add_window(sub, name=rng.choice([None, "alias", ("alias", 1)]))
         except ValueError:
             second = None
+    for mm_ in rng.sample(all_maps, min(len(all_maps), 3)):
+        if rng.random() < 0.5:
+            partial_queries(mm_)
     if second is not None and rng.random() < 0.5:
         mon.run(lambda: checks(second))
         mon.run(checks)
